@@ -88,10 +88,9 @@ func (f *atomicFile) Commit() error {
 	if err := f.File.Close(); err != nil {
 		return err
 	}
-	// rename can't overwrite on windows
-	if err := os.Remove(f.name); err != nil && !os.IsNotExist(err) {
-		return err
-	}
+	// os.Rename replaces an existing destination on every supported platform
+	// (MoveFileEx with MOVEFILE_REPLACE_EXISTING on windows). Removing the
+	// destination first would leave a window in which it does not exist.
 	if err := os.Rename(f.File.Name(), f.name); err != nil {
 		return err
 	}
